@@ -400,3 +400,15 @@ _upd('C11',
      'random circuits and random layouts (leading spaces, junk after the parenthesis, padded declarations, shuffled lines) on every run.',
      'Which exception class malformed text raises is decided by correspondence only. "Computes what the text denotes" = the parsed gate list is '
      'the stated one; its function is C01\'s denotation.')
+_upd('C07',
+     'Through a program logic for generator programs (Prog, Sem, frame theorem run_frame: only fresh non-INPUT gates of the accepted arity '
+     'are appended, every valuation of the host extends): add_sum_n_bits (XAIG MDFA scheme and AIG), add_sum_n_bits_easy, the ripple adders '
+     '(plain and shifted), both weighted sums (pairwise distinct output levels, weighted value preserved) and add_sum_pow2_m1 return exactly '
+     'the stated sums for all operand counts, weights, endiannesses, basis spellings and operands that are arbitrary host gates; AIG runs emit '
+     'AIG gates only. Gate counts by a cost semantics (Cost, run_cost) and potential arguments: the documented bounds are proved for '
+     'add_sum_n_bits (4.5n-2m / 7n-3m), add_sum_n_bits_easy, the naive weighted sum and the AIG weighted sum (each slightly stronger). '
+     'All generators are modelled one-to-one and compared gate for gate with the code (uuid pinned) on every run; sizes are checked on '
+     'operand counts far beyond the value oracle, incl. directed level profiles.',
+     'OPEN FINDING: for add_sum_n_weighted_bits in XAIG the documented 4.5n-2m is false (profile 4,4,3,3,3,...: half a gate per level too '
+     'many; n=35, m=13: 132 gates) — shown on the code by the search and on the model by a kernel-evaluated run (thorough tier); the theorem '
+     'proved is 4.5n-1.5m. Termination within the model fuel is by correspondence.')
